@@ -34,7 +34,8 @@ def proc_case(draw, n, mle=True):
     wk = draw(st.sampled_from(["haar", "near", "perm", "same"]))
     return {"prog": prog, "target": [wk, draw(st.integers(0, 10 ** 6))], "mle": mle,
             "ulp_seed": draw(st.one_of(st.none(), st.integers(0, 10 ** 6))),
-            "scale_seed": draw(st.one_of(st.none(), st.integers(0, 10 ** 6)))}
+            "scale_seed": draw(st.one_of(st.none(), st.integers(0, 10 ** 6))),
+            "n_args": draw(st.sampled_from([0, 0, 1, 2])), "args_given": draw(st.booleans())}
 
 
 def independent_choi(V):
@@ -57,8 +58,13 @@ def run_proc(case):
     base = call("build", qubits.build_real, prog)
     snap = snapshot(base)
 
+    extra = [("arg", k) for k in range(case.get("n_args", 0))]
+
     def make_experiment(scaled):
-        def experiment(circuits, inputs):
+        def experiment(circuits, inputs, *args):
+            if list(args) != extra or any(a is not b for a, b in zip(args, extra)):
+                raise Violation(f"experiment callback received extra arguments {args!r}, experiment_args was "
+                                f"{extra!r}", key="experiment-args")
             us = case.get("ulp_seed")
             ss = case.get("scale_seed") if scaled else None
             return [qubits.exact_counts(c, n, list(s), qubits.ulp_choice(us, i), scale=qubits.scale_choice(ss, i))
@@ -68,13 +74,16 @@ def run_proc(case):
     # normalised by its own total); the MLE optimiser is fed plain weights, its own stopping rule is read at 0.99
     experiment = make_experiment(False)
     experiment_scaled = make_experiment(True)
+    kw_args = {"experiment_args": extra} if extra or case.get("args_given") else {}
 
     choi_ref = call("choi_from_unitary", tomography.choi_from_unitary, V)
     if np.abs(choi_ref - independent_choi(V)).max() > 1e-10:
         raise Violation("choi_from_unitary(V) differs from sum |i><j| (x) V|i><j|V^dagger",
                         key="choi-from-unitary-definition")
-    li = call("LIProcessTomography", tomography.LIProcessTomography, n, base, experiment_scaled)
+    li = call("LIProcessTomography", tomography.LIProcessTomography, n, base, experiment_scaled, **kw_args)
     choi = call("LI process", li.process)
+    if not np.array_equal(np.asarray(li.choi), np.asarray(choi)):
+        raise Violation("the choi attribute differs from the matrix process() returned", key="choi-attribute")
     err = np.abs(choi - choi_ref).max()
     if err > 1e-8:
         raise Violation(f"LI Choi matrix differs from choi_from_unitary(V) by {err:.4g}", key="li-choi-mismatch")
@@ -83,7 +92,7 @@ def run_proc(case):
         raise Violation(f"LI fidelity = {f}", key="li-fidelity")
     labels = [f"n={n}"]
     if case["mle"]:
-        mle = call("MLEProcessTomography", tomography.MLEProcessTomography, n, base, experiment)
+        mle = call("MLEProcessTomography", tomography.MLEProcessTomography, n, base, experiment, **kw_args)
         cm = call("MLE process", mle.process)
         if np.abs(cm - cm.conj().T).max() > 1e-8:
             raise Violation("MLE Choi matrix not Hermitian", key="mle-not-hermitian")
@@ -99,7 +108,7 @@ def run_proc(case):
         if not (0.99 <= pf <= 1 + 1e-3) or not (0.99 <= rf <= 1 + 1e-3):
             raise Violation(f"MLE fidelity to choi_from_unitary(V): {pf:.5f} (reported {rf:.5f})", key="mle-fidelity")
         labels.append("mle")
-    gf = call("GateFidelity", tomography.GateFidelity, n, base, experiment_scaled)
+    gf = call("GateFidelity", tomography.GateFidelity, n, base, experiment_scaled, **kw_args)
     f1 = call("GateFidelity.process(V)", gf.process, V)
     if abs(f1 - 1) > 1e-8:
         raise Violation(f"gate fidelity against V itself = {f1}", key="gate-fidelity-self")
